@@ -65,7 +65,10 @@ theorem build_fnsOK (cfg : Cfg) (ht : tableOK cfg = true) : ∀ e : PyExpr,
       rw [this]; rfl
   induction e with
   | col n => intro _; rfl
-  | lit v => intro _; rfl
+  | lit v => intro _; simp only [build, fnExpr]; split <;> rfl
+  | raw s v =>
+    intro _; simp only [build]
+    cases cfg.coerce s <;> simp only [litExpr, fnExpr] <;> first | rfl | (split <;> rfl)
   | arith op a b iha ihb =>
     intro h; simp only [allNodes, Bool.and_eq_true] at h
     simp only [build]
@@ -140,5 +143,145 @@ theorem build_fnsOK (cfg : Cfg) (ht : tableOK cfg = true) : ∀ e : PyExpr,
   | alias a n iha =>
     intro h; simp only [allNodes, Bool.and_eq_true] at h
     simp [build, fnsOK, fnsOK_unaliasS, iha h.2]
+
+/-! ### every literal of the built tree is text the engine reads as a literal (inside `H_floatLitFinite`) -/
+
+theorem litsOK_unaliasS (t : SqlExpr) : litsOK (unaliasS t) = litsOK t := by
+  cases t <;> simp [unaliasS, litsOK]
+
+theorem litsOK_wrapUnder (cfg : Cfg) (p : String) (t : SqlExpr) : litsOK (wrapUnder cfg p t) = litsOK t := by
+  unfold wrapUnder
+  split
+  · rfl
+  · split <;> simp [litsOK]
+
+theorem litsOK_wrapOperand (cfg : Cfg) (p : String) (t : SqlExpr) : litsOK (wrapOperand cfg p t) = litsOK t := by
+  unfold wrapOperand
+  split
+  · exact litsOK_wrapUnder cfg p t
+  · rfl
+
+theorem litsOK_subject (cfg : Cfg) (m : Gen.DirectOp) (p : String) (t : SqlExpr) : litsOK (subject cfg m p t) = litsOK t := by
+  unfold subject
+  split
+  · exact litsOK_wrapUnder cfg p t
+  · rfl
+
+theorem litsOK_bound (cfg : Cfg) (t : SqlExpr) : litsOK (bound cfg t) = litsOK t := by
+  unfold bound
+  cases cfg.betweenBoundsUnalias <;> cases cfg.betweenBoundsWrap <;> simp [litsOK_wrapUnder, litsOK_unaliasS]
+
+theorem litsOK_mkCast (t : SqlExpr) (ty : String) : litsOK (mkCast t ty) = litsOK t := by
+  rcases mkCast_cases t ty with ⟨a, ht, h⟩ | h
+  · rw [h, ht]
+  · rw [h]; rfl
+
+theorem litsOK_applyBin (cfg : Cfg) (o : Gen.ColOp) (s t : SqlExpr) (hs : litsOK s = true) (ht : litsOK t = true) :
+    litsOK (applyBin cfg o s t) = true := by
+  cases h1 : o.paren <;> cases h2 : o.selfFirst <;> simp [applyBin, h1, h2, litsOK, litsOK_wrapOperand, hs, ht]
+
+theorem litsOK_applyUn (cfg : Cfg) (o : Gen.ColOp) (s : SqlExpr) (hs : litsOK s = true) : litsOK (applyUn cfg o s) = true := by
+  cases h : cfg.unaryWrapsParen <;> simp [applyUn, h, litsOK, hs]
+
+theorem isSome_of_readsBack {l : LitNode} {v : PyVal} (h : readsBack l v = true) : l.value?.isSome = true := by
+  simp [readsBack] at h
+  simp [h]
+
+theorem litsOK_fnExpr (c : LitCfg) (v : PyVal) (h : readsBack (fnNode c v) v = true) : litsOK (fnExpr c v) = true := by
+  unfold fnExpr
+  split <;> simp [litsOK, isSome_of_readsBack h]
+
+theorem litsOK_litExpr (c : LitCfg) (k : Gen.Coerce) (v : PyVal) (h : readsBack (coerceNode c k v) v = true) :
+    litsOK (litExpr c k v) = true := by
+  cases k
+  · simp [litExpr, litsOK, isSome_of_readsBack h]
+  · simp [litExpr, litsOK, isSome_of_readsBack h]
+  · simp only [litExpr]; exact litsOK_fnExpr c v h
+
+theorem all_isSome_of_readsBack (f : PyVal → LitNode) (vs : List PyVal)
+    (h : vs.all (fun v => readsBack (f v) v) = true) : (vs.map f).all (fun l => l.value?.isSome) = true := by
+  induction vs with
+  | nil => rfl
+  | cons v vs ih =>
+    simp only [List.all_cons, Bool.and_eq_true] at h
+    simp [isSome_of_readsBack h.1, ih h.2]
+
+theorem build_litsOK (cfg : Cfg) : ∀ e : PyExpr, allNodes (litAt cfg) e = true → litsOK (build cfg e) = true := by
+  intro e
+  induction e with
+  | col n => intro _; rfl
+  | lit v => intro h; simp only [allNodes, litAt] at h; exact litsOK_fnExpr _ _ h
+  | raw s v => intro h; simp only [allNodes, litAt] at h; exact litsOK_litExpr _ _ _ h
+  | arith op a b iha ihb =>
+    intro h; simp only [allNodes, Bool.and_eq_true] at h
+    simp only [build]
+    exact litsOK_applyBin _ _ _ _ (by rw [litsOK_unaliasS]; exact iha h.1.2) (by rw [litsOK_unaliasS]; exact ihb h.2)
+  | arithL op v b ihb =>
+    intro h; simp only [allNodes, Bool.and_eq_true, litAt] at h
+    simp only [build]
+    exact litsOK_applyBin _ _ _ _ (by rw [litsOK_unaliasS]; exact ihb h.2) (by simp [litsOK, isSome_of_readsBack h.1])
+  | cmp op a b iha ihb =>
+    intro h; simp only [allNodes, Bool.and_eq_true] at h
+    simp only [build]
+    exact litsOK_applyBin _ _ _ _ (by rw [litsOK_unaliasS]; exact iha h.1.2) (by rw [litsOK_unaliasS]; exact ihb h.2)
+  | cmpL op v b ihb =>
+    intro h; simp only [allNodes, Bool.and_eq_true, litAt] at h
+    simp only [build]
+    exact litsOK_applyBin _ _ _ _ (by rw [litsOK_unaliasS]; exact ihb h.2) (by simp [litsOK, isSome_of_readsBack h.1])
+  | logic op a b iha ihb =>
+    intro h; simp only [allNodes, Bool.and_eq_true] at h
+    simp only [build]
+    exact litsOK_applyBin _ _ _ _ (by rw [litsOK_unaliasS]; exact iha h.1.2) (by rw [litsOK_unaliasS]; exact ihb h.2)
+  | logicL op v b ihb =>
+    intro h; simp only [allNodes, Bool.and_eq_true, litAt] at h
+    simp only [build]
+    exact litsOK_applyBin _ _ _ _ (by rw [litsOK_unaliasS]; exact ihb h.2) (by simp [litsOK, isSome_of_readsBack h.1])
+  | neg a iha =>
+    intro h; simp only [allNodes, Bool.and_eq_true] at h
+    simp only [build]
+    exact litsOK_applyUn _ _ _ (by rw [litsOK_unaliasS]; exact iha h.2)
+  | not a iha =>
+    intro h; simp only [allNodes, Bool.and_eq_true] at h
+    simp only [build]
+    exact litsOK_applyUn _ _ _ (by rw [litsOK_unaliasS]; exact iha h.2)
+  | isNull a iha =>
+    intro h; simp only [allNodes, Bool.and_eq_true] at h
+    simp [build, litsOK, litsOK_subject, litsOK_unaliasS, iha h.2]
+  | isNotNull a iha =>
+    intro h; simp only [allNodes, Bool.and_eq_true] at h
+    simp [build, litsOK, litsOK_subject, litsOK_unaliasS, iha h.2]
+  | eqNullSafe a b iha ihb =>
+    intro h; simp only [allNodes, Bool.and_eq_true] at h
+    simp only [build]
+    exact litsOK_applyBin _ _ _ _ (by rw [litsOK_unaliasS]; exact iha h.1.2) (by rw [litsOK_unaliasS]; exact ihb h.2)
+  | isin a vs iha =>
+    intro h; simp only [allNodes, Bool.and_eq_true, litAt] at h
+    have hv := all_isSome_of_readsBack _ vs h.1
+    simp only [build, litsOK, litsOK_subject, litsOK_unaliasS, iha h.2, hv, Bool.and_self]
+  | between a lo hi iha ihlo ihhi =>
+    intro h; simp only [allNodes, Bool.and_eq_true] at h
+    simp [build, litsOK, litsOK_subject, litsOK_bound, litsOK_unaliasS, iha h.1.1.2, ihlo h.1.2, ihhi h.2]
+  | like a p iha =>
+    intro h; simp only [allNodes, Bool.and_eq_true, litAt] at h
+    simp [build, litsOK, litsOK_subject, litsOK_unaliasS, iha h.2, isSome_of_readsBack h.1]
+  | strFn f a b iha ihb =>
+    intro h; simp only [allNodes, Bool.and_eq_true] at h
+    simp [build, litsOK, litsOK_unaliasS, iha h.1.2, ihb h.2]
+  | substr a s l iha ihs ihl =>
+    intro h; simp only [allNodes, Bool.and_eq_true] at h
+    simp [build, litsOK, litsOK_unaliasS, iha h.1.1.2, ihs h.1.2, ihl h.2]
+  | when c v r ihc ihv ihr =>
+    intro h; simp only [allNodes, Bool.and_eq_true] at h
+    simp [build, litsOK, litsOK_unaliasS, ihc h.1.1.2, ihv h.1.2, ihr h.2]
+  | noElse => intro _; rfl
+  | otherwise d ihd =>
+    intro h; simp only [allNodes, Bool.and_eq_true] at h
+    simp [build, litsOK, litsOK_unaliasS, ihd h.2]
+  | cast a ty iha =>
+    intro h; simp only [allNodes, Bool.and_eq_true] at h
+    simp [build, litsOK_mkCast, litsOK_unaliasS, iha h.2]
+  | alias a n iha =>
+    intro h; simp only [allNodes, Bool.and_eq_true] at h
+    simp [build, litsOK, litsOK_unaliasS, iha h.2]
 
 end Sqlframe.C05
